@@ -56,6 +56,10 @@ type Contract struct {
 	Contrib  map[string]int       // counter ghost → total amount one execution of this function adds to it
 	// callee → precondition labels that this unit does not establish but assumes (each use is listed in the evidence as
 	// an ASSUMED precondition with the stated reason); for thin wrappers whose callees need facts produced elsewhere
+	// Boundary: when this unit is in a property's closure only because a tagged unit calls it (it carries no clause for
+	// that property itself), the closure does not descend further into its own callees: they are verified by the checks
+	// of the properties they serve. Used on the orchestration layer, below which sits every protocol implementation.
+	Boundary bool
 	TrustPre    map[string]map[string]bool
 	TrustPreWhy map[string]string
 }
@@ -139,7 +143,7 @@ func (w *World) parseContracts(pkgs []*packages.Package) error {
 	return nil
 }
 
-var keywords = map[string]bool{"trustpre": true, "func": true, "before": true, "onunlock": true, "atunlock": true, "contributes": true, "closure": true, "assume": true, "requires": true, "ensures": true, "modifies": true, "loop": true,
+var keywords = map[string]bool{"boundary": true, "trustpre": true, "func": true, "before": true, "onunlock": true, "atunlock": true, "contributes": true, "closure": true, "assume": true, "requires": true, "ensures": true, "modifies": true, "loop": true,
 	"safety": true, "ghost": true, "monitor": true, "inv": true, "spawn": true, "pure": true, "note": true, "cover": true, "lemma": true, "iface": true, "noinline": true, "trusted": true, "inline": true, "stable": true}
 
 func firstWord(s string) string {
@@ -337,6 +341,8 @@ func (w *World) parseContractLines(sp *ssa.Package, lines, poss []string) error 
 			for _, l := range strings.Fields(strings.ReplaceAll(rest, ",", " ")) {
 				cur.Stable[l] = true
 			}
+		case "boundary":
+			cur.Boundary = true
 		case "noinline":
 			cur.NoInline = true
 		case "inline":
